@@ -35,7 +35,7 @@ VERIFY_MSGS = (
     "possible division by zero", "decreases not satisfied", "could not prove termination", "possible bit shift underflow/overflow",
     "recommendation not met", "loop invariant not satisfied", "cannot show invariant holds", "possible truncation",
     "failed this postcondition", "index out of bounds", "assert_by_compute", "possible overflow", "possible underflow",
-    "unable to prove", "might not be allowed", "cannot prove", "not satisfied",
+    "unable to prove", "might not be allowed", "cannot prove", "not satisfied", "precondition not met", "in bounds",
 )
 UNDECIDED_MSGS = ("rlimit", "resource limit", "timed out", "timeout", "incomplete")
 
